@@ -930,7 +930,7 @@ impl Engine for BldEngine {
         let n = state_specs(ns, 3).len();
         Meta {
             level: "model_checking",
-            rule: "builder call sequences: per state every ordered sequence of <= 3 add_transition(label, target) calls (labels = the 6 unions of consecutive blocks of [0,9] [10,19] [20,MAX]), a default in {none} + targets declared before or after the transitions (or declared twice), final marks, and an intermediate build() / build_unchecked() inserted at every position of a share of the sequences (building must not change what was specified); the model records for every state and block the set of targets assigned: conflict or uncovered => build() must fail; complete, conflict-free, defaults only where needed => must succeed; otherwise either; whenever Ok the automaton must equal the specification up to a renaming fixing the initial state (every successor on 9 probe characters, final flags, counts); non-trivial = specifications accepted by build()".into(),
+            rule: "builder call sequences: per state every ordered sequence of <= 3 add_transition(label, target) calls (and every ordered sequence of exactly 4 for state 0) (labels = the 6 unions of consecutive blocks of [0,9] [10,19] [20,MAX]), a default in {none} + targets declared before or after the transitions (or declared twice), final marks, and an intermediate build() / build_unchecked() inserted at every position of a share of the sequences (building must not change what was specified); the model records for every state and block the set of targets assigned: conflict or uncovered => build() must fail; complete, conflict-free, defaults only where needed => must succeed; otherwise either; whenever Ok the automaton must equal the specification up to a renaming fixing the initial state (every successor on 9 probe characters, final flags, counts); non-trivial = specifications accepted by build()".into(),
             assumptions: vec!["a needless default (declared although the transitions already cover the alphabet) is not classified by the statement: both outcomes are accepted".into()],
             exhaustive: true,
             space: format!("{} states; state 0 ranges over all {} per-state specifications, the other state(s) over every {}th{} one; final sets: none, {{last}}, all", ns, n, s1, if ns == 3 { format!(" / {}th", s2) } else { String::new() }),
@@ -988,6 +988,33 @@ impl Engine for BldEngine {
                                 }
                             }
                         }
+                    }
+                }
+            }
+        }
+        // four transitions in one state (labels that bridge and nest need at least four), every order
+        {
+            let singles: Vec<(usize, usize)> = (0..LABELS.len()).flat_map(|l| (0..2usize).map(move |t| (l, t))).collect();
+            let n = singles.len();
+            let total = n * n * n * n;
+            for code in 0..total {
+                if code % BLD_NB != batch {
+                    continue;
+                }
+                let t4 = [singles[code % n], singles[(code / n) % n], singles[(code / n / n) % n], singles[code / n / n / n]];
+                for d in [None, Some(0usize), Some(1usize)] {
+                    let mut calls = vec![];
+                    for &(l, t) in &t4 {
+                        calls.push(Call::Add(0, l, t));
+                    }
+                    if let Some(d) = d {
+                        calls.push(Call::Default(0, d));
+                    }
+                    calls.push(Call::Default(1, 0));
+                    rep.inc("evaluations");
+                    rep.inc("four_transition_states");
+                    if let Some(m) = bld_case(0, &calls, rep) {
+                        rep.violation("C13", "bld", calls_to_json(0, &calls), m);
                     }
                 }
             }
